@@ -125,6 +125,15 @@ def route (jump : Nat → Nat → Nat) (C : Calc) (sortShard sortTs : List BRow 
   (runs sameShard (sortShard (assignShards jump n rows))).flatMap (fun g =>
     (familyGroups C sortTs (g.1 :: g.2)).map (fun fg => ⟨g.1.shard, fg.1, fg.2⟩))
 
+/-- databaseChannel.Write, the `getChannelByShardID` branch: the groups are formed with the CONFIGURED
+shard count; a group whose shard has no channel (channels are created one at a time) is skipped
+(`err = errChannelNotFound; continue`); the other groups are handed to their channels unchanged, and
+each successful `familyChannel.Write` assigns its nil result to the same `err`. So the returned error
+is the outcome of the LAST group: channel-not-found is reported iff the last shard group is absent.
+Result: (delivered groups, channel-not-found returned). -/
+def deliver (present : Nat → Bool) (gs : List Group) : List Group × Bool :=
+  (gs.filter (fun g => present g.shard), gs.foldl (fun _ g => !present g.shard) false)
+
 /-- familyChannel.Write: BrokerRow.WriteTo writes nothing for a marked row. -/
 def written (g : Group) : List BRow := g.rows.filter (fun r => !r.oor)
 
